@@ -107,9 +107,16 @@ func init() {
 				cse.TimeoutMS = 60000
 				cs = append(cs, cse)
 			}
+			// an iteration that outlasts the run's own duration and ends during the completion wait: its duration is its own
+			for i := 0; i < map[string]int{"quick": 3, "thorough": 12}[tier]; i++ {
+				cse := core.MkCase("C17", "outlast", i, seed, map[string]int{"max_ms": 150 + 100*(i%3), "body_ms": 600 + 150*(i%4), "mode": i % 3})
+				cse.Race = i%2 == 0
+				cse.TimeoutMS = 60000
+				cs = append(cs, cse)
+			}
 			return cs
 		},
-		Kinds:  map[string]core.RunFunc{"measure": c17Measure, "aggregate": c17Aggregate, "largesum": c17LargeSum, "queue": c17Queue, "observer": c17Observer},
+		Kinds:  map[string]core.RunFunc{"outlast": c17Outlast, "measure": c17Measure, "aggregate": c17Aggregate, "largesum": c17LargeSum, "queue": c17Queue, "observer": c17Observer},
 		Floors: map[string]int64{"measured_iterations": 100, "sequences": 20000, "snapshots_checked": 50000, "empty_periods": 1000},
 	})
 }
@@ -576,4 +583,75 @@ func c17Observer(c *core.Case, o *core.Outcome) {
 	o.AddObs("sequences", 1)
 	o.Sig("observer:race=%v", c.Race)
 	o.Sample = map[string]any{"refreshes": n, "reads": reads.Load(), "distinct_refreshes_seen": nd}
+}
+
+// c17Outlast: one worker, the run's max-duration (or its config-file stage) is shorter than the iteration that is executing
+// when it ends; the iteration finishes during the completion wait and is recorded: not shorter than its body took.
+func c17Outlast(c *core.Case, o *core.Outcome) {
+	var pp map[string]int
+	c.Params(&pp)
+	l := engine.NewLog()
+	var mu sync.Mutex
+	var own []time.Duration
+	scenario := func(t *f1testing.T) f1testing.RunFn {
+		return func(t *f1testing.T) {
+			t0 := time.Now()
+			defer func() {
+				mu.Lock()
+				own = append(own, time.Since(t0))
+				mu.Unlock()
+			}()
+			time.Sleep(time.Duration(pp["body_ms"]) * time.Millisecond)
+		}
+	}
+	spec := engine.Spec{Mode: "users", Concurrency: 1, MaxDurationMS: pp["max_ms"], CompletionMS: 5000, IgnoreDropped: true}
+	switch pp["mode"] {
+	case 1:
+		spec = engine.RateSpec("constant", 1, 50, 1)
+		spec.MaxDurationMS, spec.CompletionMS = pp["max_ms"], 5000
+	case 2:
+		y := fmt.Sprintf("scenario: verifScenario\nlimits:\n  max-duration: 30s\n  concurrency: 1\n  max-iterations: 0\n  ignore-dropped: true\ndefault:\n  distribution: none\n  jitter: 0\nstages:\n- duration: %dms\n  mode: users\n", pp["max_ms"])
+		spec = engine.Spec{Mode: "file", YAML: y, IgnoreDropped: true, CompletionMS: 5000, Concurrency: 1, MaxDurationMS: 30000}
+	}
+	r := engine.Execute(context.Background(), spec, l, scenario, nil, nil)
+	if r.NewErr != nil {
+		o.Inconc("harness: cannot build run: %v", r.NewErr)
+		return
+	}
+	mu.Lock()
+	defer mu.Unlock()
+	desc := fmt.Sprintf("mode=%s run ends after %d ms, bodies take %d ms, completion timeout 5 s", spec.Mode, pp["max_ms"], pp["body_ms"])
+	snap := r.Result.Snapshot().SuccessfulIterationDurations
+	if len(own) == 0 || snap.Count != uint64(len(own)) {
+		o.Inconc("%d bodies ended, %d recorded (%s)", len(own), snap.Count, desc)
+		return
+	}
+	minOwn, maxOwn := own[0], own[0]
+	for _, d := range own {
+		minOwn, maxOwn = min(minOwn, d), max(maxOwn, d)
+	}
+	o.Events = int64(len(own)) + int64(l.Len())
+	if snap.Min < minOwn || snap.Max < maxOwn {
+		o.Violate("outlast:"+desc, "%d iterations took between %v and %v by their own clocks (the last one was executing when the run stopped triggering and ended during the completion wait); recorded min %v max %v: a recorded duration is shorter than its body (%s)", len(own), minOwn, maxOwn, snap.Min, snap.Max, desc)
+		return
+	}
+	if fams, err := engine.Gather(r.Registry); err == nil {
+		var sum float64
+		for _, sr := range fams[engine.IterationFamily] {
+			if sr.Labels["stage"] == "iteration" {
+				sum += sr.Sum
+			}
+		}
+		var ownSum time.Duration
+		for _, d := range own {
+			ownSum += d
+		}
+		if sum < float64(ownSum) {
+			o.Violate("outlast-exported:"+desc, "exported sample sum %v < sum of the bodies' own times %v (%s)", time.Duration(sum), ownSum, desc)
+			return
+		}
+	}
+	o.AddObs("measured_iterations", int64(len(own)))
+	o.Sig("outlast:mode=%s", spec.Mode)
+	o.Sample = map[string]any{"case": desc, "bodies_own_max": maxOwn.String(), "recorded_max": snap.Max.String()}
 }
